@@ -47,6 +47,10 @@ def plan(tier, seed):
             U += u(gen.random_custom_cfg(rng, rng.choice((2, 3, 3, 4))), 'sparse', 1, count=30, cap=4)
         for c in gen.NAMED[:2]:
             U += u(c, 'sparse', 1, count=10, cap=4)
+        for c, w in zip(rng.sample(d3, 3), ('wraps', 'identity', 'wraps')):
+            U += u(dict(c, opts={'wrapper': w}), 'sparse', 1, count=25, cap=4, perm=0.6, min_size=2)
+        for c in ({'p': 5, 'q': 0, 'r': 0}, {'p': 4, 'q': 1, 'r': 0}, {'p': 4, 'q': 0, 'r': 1}):
+            U += u(c, 'highgrade', 1, count=12, cap=3)
         for c in ({'p': 2, 'q': 0, 'r': 1}, {'p': 1, 'q': 0, 'r': 1}, {'p': 1, 'q': 1, 'r': 1}, {'p': 3, 'q': 0, 'r': 0}, {'p': 2, 'q': 0, 'r': 0}):
             U += u(dict(c, opts={'graded': True}), 'gradeblocks', 1, count=30, cap=7)
         nshards = 16
